@@ -1,7 +1,7 @@
 """C14 - tool outputs are valid tool inputs: pipelines equal the composed pure operations."""
 import os, copy, itertools
 import numpy as np
-from .. import plotgen, chkgen, oracle, pools, tastelib, tools, writers
+from .. import plotgen, chkgen, oracle, pools, tastelib, tools, writers, leanio
 from ..common import quiet, alarm
 from .c01 import dedup_names
 
@@ -183,6 +183,12 @@ def run_seq(ctx, rep, spec, sib, ops, start=None, source="plotgen", reuse=False)
         d = same_content(want, P)
         if d is not None:
             rep.fail(f"step {n} ({op['op']}): contents differ from the pure operation: {d}", case); return
+        if os.path.exists(leanio.DRIVER):
+            why = writers.global_header_theorem_applies(out, leanio)
+            if why:
+                rep.tie(f"step {n} ({op['op']}): global header of the intermediate result: {why}", case)
+            else:
+                rep.count("header-theorem-applies")
         cur, c = out, want
         env[f"step{n}"] = out; cenv[f"step{n}"] = want
     rep.agree()
